@@ -335,6 +335,14 @@ inductive Sim (req : Request) (es : Entities) : Expr → TExpr → Prop
   | hasAttr (attr : String) {e : Expr} {te : TExpr} : Sim req es e te → Sim req es (.hasAttr e attr) (.hasAttr te attr)
   | like (p : Pattern) {e : Expr} {te : TExpr} : Sim req es e te → Sim req es (.like e p) (.like te p)
   | is (ty : EntityType) {e : Expr} {te : TExpr} : Sim req es e te → Sim req es (.is e ty) (.is te ty)
+  /-- extension function calls (all extension functions have one or two arguments): the arguments are not records and the
+  result is a scalar (both follow from the typing: argument types are `String` / extension types, result types are
+  extension types, `Bool`, `Long`) -/
+  | call1 (fn : String) {a : Expr} {ta : TExpr} : Sim req es a ta → NonRec (evaluate req es [] a) →
+      (∀ w, evaluate req es [] (.call fn [a]) = .ok w → Scalar w) → Sim req es (.call fn [a]) (.call fn [ta])
+  | call2 (fn : String) {a b : Expr} {ta tb : TExpr} : Sim req es a ta → Sim req es b tb →
+      NonRec (evaluate req es [] a) → NonRec (evaluate req es [] b) →
+      (∀ w, evaluate req es [] (.call fn [a, b]) = .ok w → Scalar w) → Sim req es (.call fn [a, b]) (.call fn [ta, tb])
 
 section main
 variable {es es' : Entities} {req : Request}
@@ -780,6 +788,71 @@ theorem eval_sim (hsub : SubStore es es') (hctx : CtxWF req) {e : Expr} {te : TE
         cases hsv : v.asEntity with
         | error x => rfl
         | ok s => exact ⟨_, rfl, by simp [Trim], scalar_bool _⟩
+  | @call1 fn a ta _ hna hscal iha =>
+    intro r hm hc
+    simp only [manifestOfExpr, manifestUnionList] at hm
+    cases h1 : manifestOfExpr ta with
+    | error x => simp [h1] at hm
+    | ok ra =>
+      simp only [h1, Except.ok.injEq] at hm
+      subst hm
+      simp only [Res.union, Res.default] at hc ⊢
+      obtain ⟨_, hc1⟩ := coverRoots_union es es' req _ _ hc
+      have iha := iha ra h1 hc1
+      have hsc := hscal
+      simp only [evaluate, evaluateList] at hsc ⊢
+      cases hv : evaluate req es [] a with
+      | error x =>
+        simp only [hv, Rel] at iha
+        simp only [iha]; rfl
+      | ok v =>
+        simp only [hv, Rel] at iha
+        obtain ⟨v', e1, e2, _⟩ := iha
+        have ev : v' = v := trim_nonrecord e2 (fun kvs h => hna kvs (by rw [hv, h]))
+        subst ev
+        simp only [e1]
+        simp only [hv] at hsc
+        exact rel_of_eq_scalar hsc (fun _ _ h => Or.inl h)
+  | @call2 fn a b ta tb _ _ hna hnb hscal iha ihb =>
+    intro r hm hc
+    simp only [manifestOfExpr, manifestUnionList] at hm
+    cases h1 : manifestOfExpr ta with
+    | error x => simp [h1] at hm
+    | ok ra =>
+      cases h2 : manifestOfExpr tb with
+      | error x => simp [h1, h2] at hm
+      | ok rb =>
+        simp only [h1, h2, Except.ok.injEq] at hm
+        subst hm
+        simp only [Res.union, Res.default] at hc ⊢
+        obtain ⟨hc12, hc2⟩ := coverRoots_union es es' req _ _ hc
+        obtain ⟨_, hc1⟩ := coverRoots_union es es' req _ _ hc12
+        have iha := iha ra h1 hc1
+        have ihb := ihb rb h2 hc2
+        have hsc := hscal
+        simp only [evaluate, evaluateList] at hsc ⊢
+        cases hv : evaluate req es [] a with
+        | error x =>
+          simp only [hv, Rel] at iha
+          simp only [iha]; rfl
+        | ok v =>
+          simp only [hv, Rel] at iha
+          obtain ⟨v', e1, e2, _⟩ := iha
+          have ev : v' = v := trim_nonrecord e2 (fun kvs h => hna kvs (by rw [hv, h]))
+          subst ev
+          simp only [e1]
+          cases hw : evaluate req es [] b with
+          | error x =>
+            simp only [hw, Rel] at ihb
+            simp only [ihb]; rfl
+          | ok w =>
+            simp only [hw, Rel] at ihb
+            obtain ⟨w', f1, f2, _⟩ := ihb
+            have ew : w' = w := trim_nonrecord f2 (fun kvs h => hnb kvs (by rw [hw, h]))
+            subst ew
+            simp only [f1]
+            simp only [hv, hw] at hsc
+            exact rel_of_eq_scalar hsc (fun _ _ h => Or.inl (Or.inl h))
 
 /-- a typed AST in the fragment whose binary operands are never records is a typed AST of its own erasure -/
 theorem sim_of_safe : ∀ (e : TExpr), InFrag e → SafeOps req es e → Sim req es e.erase e
